@@ -83,6 +83,8 @@ def union_ties(a, b):
 def _is_tied(ties, g):
     # direction-insensitive: sheXer's choice (OR) serializer omits the '^' of inverse constraints, so a
     # tie found in the inverse group of the profile shows up in what reads as the direct group
+    if "{" in g[2] or "{" in g[0]:
+        return True     # a name written with an ambiguous prefix label (two PREFIX lines share it): cannot be matched to the profile
     lab = g[0].split("~")[0]      # same-label shapes are told apart by a '~<class>' suffix the profile does not carry
     return ties == ALL_TIED or (lab, True, g[2]) in ties or (lab, False, g[2]) in ties
 
